@@ -87,11 +87,17 @@ CHECKS.update({
                   '(success <=> some landing solution can be followed through, for ANY hit rayon may return). Bounded: <= 4 interpolated poses per segment, <= 3 stroke poses, scripted outcome kinds with symbolic values.', design='10.8',
              note='Lower layers are assumptions discharged by C01/C08/C11/C13; slerp is an oracle, so only the translational part of "on the straight segment" is decided; default transition coefficients; f64 read as reals. A native battery runs the real planner on 8 fixed and 60 seeded random scenes and checks every clause on every returned path.'),
 })
+CHECKS.update({
+ 'C20': dict(text='JOINT-DATA LEVEL ONLY. populate_opw_parameters executed from MIR on a finite map of joint data whose origins are GENERATED from symbolic OPW parameters in each documented layout (c2 along z or x, b on joint 3 zero or not, c3 on joint 4 or 5; '
+                  'all parameters non-zero): the seven parameters, the axis signs, the limits and dof = 6 come back, no error is reachable; a missing joint gives an error value, never a panic. get_axis_sign / get_xyz_from_origin / get_limits / parse_angle '
+                  'executed on attribute texts given by shape (token lists, plain number, ${radians(d)}, unparsable, missing): sign of the single non-zero axis component, the three numbers in order, (lower, upper) with degrees converted, errors otherwise. '
+                  'convert_to_map: one entry per name, identical second copy accepted, conflicting one rejected, result independent of order. URDFParameters::{parameters, constraints, to_robot}: values reach the solver unchanged, limits through Constraints::new (from == to = unconstrained is C07). '
+                  'NOT decided by the solver: XML parsing and traversal (sxd_document), the regexes (joint-name simplification, the ${radians()} pattern), string splitting, 5-DOF detection from names.', design='10.9',
+             note='The XML/regex/string layer is outside the MIR dump and the real-arithmetic encoder; those clauses (declaration order, nesting, name decoration, duplicate copies, limit syntaxes, malformed XML) are exercised only by the native battery: '
+                  '179 generated URDF texts (all layouts, 6 name decorations, permutations, nesting depths, identical / conflicting copies, each joint missing, truncated XML) through the real from_urdf. Degenerate parameter values (a2 = 0 with c3 on joint 4; c2 = 0 with b != 0) make the layouts indistinguishable and are outside the claim.'),
+})
 PENDING = {}
-NA = {
- 'C20': 'what the property quantifies over (declaration order, XML nesting, name decoration, duplicate copies, limit syntaxes, malformed XML) lives in sxd_document, three regexes and string splitting - library code outside the MIR dump and string-level '
-        'code the real-arithmetic encoder does not model; see DESIGN.md 10.5',
-}
+NA = {}
 def main():
     props = [json.loads(l) for l in open(os.path.join(VERIF, 'properties.jsonl'))]
     checks = []
